@@ -444,6 +444,15 @@ fn restarts_impl<F: Float, D: Distance<F>>(c: &Case, obs: &mut Obs, dist: D) {
 // large: n in the hundreds/thousands so that the parallel assignment loop really splits
 
 pub fn check_large(c: &LargeCase, obs: &mut Obs) {
+    limit_pool();
+    if c.init_kind < 2 {
+        // deterministic initialisers: let the assignment loop run on three workers
+        if let Ok(pool) = rayon::ThreadPoolBuilder::new().num_threads(3).build() {
+            obs.class("three_worker_pool");
+            pool.install(|| dispatch!(c.f32_, c.metric, large_impl, c, obs));
+            return;
+        }
+    }
     dispatch!(c.f32_, c.metric, large_impl, c, obs)
 }
 
